@@ -195,6 +195,8 @@ class Walker(object):
         self.opaque_paths = set()    # fn paths forced to be effects even if a body exists
         self.stats = {"steps": 0, "paths": 0, "forks": 0}
         self.trace_calls = False     # record ('enter', path) markers
+        self.call_site_bound = None  # max entries of a local function from the same caller block per path (loops whose
+                                     # branching happens inside the callee are not seen by the (fn, block) loop guard)
         self.record_stores = None    # callable(state, frame, loc, value, span) for mod-ref rules
         self.unroll_bound = 64
         self.max_branches = 600
@@ -1365,6 +1367,7 @@ class Walker(object):
                         site[key] = self.eval_operand(st, fr, msg[key])
                     except WalkError:
                         pass
+            site["nfacts_before"] = len(st.facts)
             st.sites.append(site)
             self.assume(st, c, exp)
             fr.block = t["t"]
@@ -1478,6 +1481,12 @@ class Walker(object):
         return Ref(oid, (), False)
 
     def enter(self, st, fr, fn, genv, args, dest, t):
+        if self.call_site_bound is not None:
+            ck = ("callsite", fr.fid, fr.block)
+            n = st.visits.get(ck, 0) + 1
+            st.visits[ck] = n
+            if n > self.call_site_bound:
+                return self.finish(st, "cut", detail="call-site bound at %s bb%d -> %s" % (fr.fn.path, fr.block, fn.path))
         if self.trace_calls:
             st.trace.append(Effect("enter:" + fn.path, tuple(args), None, t.get("span"), fr.fn.path, len(st.frames)))
         self.push_frame(st, fn, genv, args, dest, t["t"], t.get("span"))
